@@ -74,6 +74,25 @@ def main():
     elif "problems" in out_t:
         notes.append(out_t.strip()[-800:])
 
+    # ---- 0a formula translator: regenerate the arithmetic kernels (Gen/Formulas.lean) the FormulaTie modules are stated over
+    ft_status = {}
+    if any("FormulaTie" in m_ for m_ in mod.LEAN_MODULES):
+        tf = os.path.join(vlib.VERIF, "tools", "translate_formulas.py")
+        rc_f, out_f = vlib.sh([sys.executable, tf])
+        okf, outf = (False, out_f) if rc_f != 0 else vlib.lake_build(["NdInterp.Gen.Formulas"])
+        if not okf:
+            # the translator produced something Lean does not accept: its own failure, never an alarm — every kernel becomes
+            # `unavailable` (vacuous tie lemmas) and the property is tied by the correspondence runs alone
+            notes.append("formula translator output rejected; all kernels marked unavailable: " + (outf or "")[-300:])
+            vlib.sh([sys.executable, tf, "--all-unavailable"])
+        try:
+            ft_status = json.load(open(os.path.join(vlib.LEAN, "NdInterp", "Gen", "Formulas.status.json")))
+        except Exception:
+            ft_status = {}
+        un = {k: v for k, v in ft_status.items() if not v.startswith("translated")}
+        if un:
+            notes.append(f"formula tie: {len(un)} kernel(s) not located in the current source, tied by the correspondence only: {un}")
+
     # ---- 0b effort: the quick tier samples more when the code of /repo/src is not the tree the model was validated on ----
     import gen
     changed_src = vlib.src_changed_files()
@@ -285,6 +304,8 @@ def main():
             "partial": getattr(mod, "PARTIAL", []),
             "notes": notes,
             "effort_scale": gen.SCALE,
+            "formula_kernels_translated": sorted(k for k, v in ft_status.items() if v.startswith("translated")),
+            "formula_kernels_unavailable": {k: v for k, v in ft_status.items() if not v.startswith("translated")},
             "source_changed_files": changed_src,
         },
         "assumptions": getattr(mod, "ASSUMPTIONS", []),
